@@ -8,12 +8,16 @@
    [step c o st ds = Some (st', ds', r)]: call [o] on state [st] with the draw
    stream [ds] stays within defined behaviour, leaves state [st'], the unused
    draws [ds'] and returns [r].  Theorems quantify over every payload type,
-   state, history of calls, configuration and draw stream.  [target_ok c] is
-   the hypothesis H_target on static_cast<ptrdiff_t>(target_size); it is
-   proved for the exact rational value (C16_target_size_in_range).
+   state, history of calls, configuration and draw stream.
+   [target_ok c n] (H_target) says that static_cast<ptrdiff_t>(target_size),
+   the [tsz] component of the configuration, lies in [1, n) for the n examples
+   at hand; it is proved for the exact rational value for every n
+   (C16_target_size_in_range) and for the binary64 evaluation of the C++
+   expression for n < 5000 (the two ..._binary64_partial theorems, the only
+   ones that mention Flocq and hence print its four standard-library axioms).
    Nothing but statements lives in this file. *)
 From Coq Require Import ZArith List Bool Permutation.
-From VV Require Import Valid.ValidDefs Valid.ValidProofs.
+From VV Require Import Valid.ValidDefs Valid.ValidProofs Valid.ValidTarget Valid.ValidTargetProofs.
 Import ListNotations.
 Local Open Scope Z_scope.
 
@@ -61,7 +65,7 @@ Print Assumptions C16_holdout_idempotent_after_run0.
    the period) of a history over >= 2 examples leaves both sets non-empty and
    restarts the counters (difficulty 0, age 1) of the selected examples. *)
 Theorem C16_shake_nonempty_both_and_resets_selected : forall (P : Type) c ops (st0 : state P) ds tr ds',
-  run_ops P c ops st0 ds = Some (tr, ds') -> target_ok c -> 2 <= population P st0 ->
+  run_ops P c ops st0 ds = Some (tr, ds') -> target_ok c (population P st0) -> 2 <= population P st0 ->
   Forall2 (fun o sr => reshuffles c o = true ->
              training (fst sr) <> [] /\ validation (fst sr) <> []
              /\ Forall (fun e => diff e = 0 /\ age e = 1) (training (fst sr))) ops tr.
@@ -69,7 +73,7 @@ Proof. exact run_ops_reshuffles. Qed.
 Print Assumptions C16_shake_nonempty_both_and_resets_selected.
 
 Theorem C16_shake_nonempty_both : forall (P : Type) c o (st : state P) ds st' ds' r,
-  step P c o st ds = Some (st', ds', r) -> reshuffles c o = true -> target_ok c -> 2 <= population P st ->
+  step P c o st ds = Some (st', ds', r) -> reshuffles c o = true -> target_ok c (population P st) -> 2 <= population P st ->
   training st' <> [] /\ validation st' <> [].
 Proof. exact shake_nonempty_both_thm. Qed.
 Print Assumptions C16_shake_nonempty_both.
@@ -103,14 +107,14 @@ Print Assumptions C16_every_call_reports.
 (* a due shake / an init never leaves defined behaviour: it consumes exactly one
    boolean draw per example, whatever the outcomes *)
 Theorem C16_shake_defined : forall (P : Type) c gen (st : state P) bs rest,
-  gap c <> 0 -> shake_due c gen = true -> target_ok c -> 2 <= population P st ->
+  gap c <> 0 -> shake_due c gen = true -> target_ok c (population P st) -> 2 <= population P st ->
   Z.of_nat (length bs) = population P st ->
   exists st', dss_shake P c gen st (map DBool bs ++ rest) = Some (st', rest, true).
 Proof. exact dss_shake_progress. Qed.
 Print Assumptions C16_shake_defined.
 
 Theorem C16_dss_init_defined : forall (P : Type) c (st : state P) bs rest,
-  target_ok c -> 2 <= population P st -> Z.of_nat (length bs) = population P st ->
+  target_ok c (population P st) -> 2 <= population P st -> Z.of_nat (length bs) = population P st ->
   exists st', dss_init P c st (map DBool bs ++ rest) = Some (st', rest).
 Proof. exact dss_init_progress. Qed.
 Print Assumptions C16_dss_init_defined.
@@ -126,6 +130,23 @@ Print Assumptions C16_close_single_set.
 Theorem C16_target_size_in_range : forall s, 2 <= s -> 1 <= target_q s < s.
 Proof. exact target_q_ok. Qed.
 Print Assumptions C16_target_size_in_range.
+
+(* FULL statement wanted: forall s, 2 <= s < 2^53 -> tsz_f64 s = target_q s  (the binary64
+   evaluation of the C++ expression truncates to the exact rational value), hence
+   non-emptiness for the code's own arithmetic at every size.  PROVED: sizes below 5000 (finite
+   check by vm_compute lifted to the quantifier); missing: the Flocq rounding argument for
+   larger sizes (python doubles agree up to 200000 on every run, 3*10^6 in thorough). *)
+Theorem C16_target_size_binary64_partial : forall s, 0 <= s < 5000 -> tsz_f64 s = target_q s.
+Proof. exact tsz_f64_agrees_partial. Qed.
+Print Assumptions C16_target_size_binary64_partial.
+
+Theorem C16_shake_nonempty_both_binary64_partial : forall (P : Type) p g ops (st0 : state P) ds tr ds',
+  run_ops P (mkCfg p g tsz_f64) ops st0 ds = Some (tr, ds') -> 2 <= population P st0 < 5000 ->
+  Forall2 (fun o sr => reshuffles (mkCfg p g tsz_f64) o = true ->
+             training (fst sr) <> nil /\ validation (fst sr) <> nil
+             /\ Forall (fun e => diff e = 0 /\ age e = 1) (training (fst sr))) ops tr.
+Proof. exact reshuffles_binary64_partial. Qed.
+Print Assumptions C16_shake_nonempty_both_binary64_partial.
 
 (* src_search::tune_parameters (repaired tree) gives an open period / percentage
    its default when the matching strategy is active and keeps user settings *)
@@ -165,5 +186,5 @@ Example dss_fallback_runs :
   = Some ([3; 4], [0; 1; 2]).
 Proof. vm_compute. reflexivity. Qed.
 
-Example target_ok_satisfiable : target_ok (cfg_q 20 1).
+Example target_ok_satisfiable : forall n, 2 <= n -> target_ok (cfg_q 20 1) n.
 Proof. exact target_q_ok. Qed.
